@@ -169,7 +169,7 @@ func RunJob(j Job) (res *Result) {
 	perSig := map[string]int{}
 	keep := func(v chain.Violation) {
 		res.NViolations++
-		k := v.Rule + "|" + v.Relation
+		k := v.Rule + "|" + digits.ReplaceAllString(v.Relation, "#")
 		perSig[k]++
 		if perSig[k] <= 25 && len(res.Violations) < 1000 {
 			res.Violations = append(res.Violations, v)
